@@ -5,5 +5,6 @@ CONSTANTS
   Quit = 1
   Stay = TRUE
   WaitsForPager = FALSE
+  RetriesShort = TRUE
 INVARIANTS NoEarlyExit
 CHECK_DEADLOCK FALSE
